@@ -2,7 +2,8 @@
     Statements only; proofs in Txcache/Selection_proofs.v, for the envelope: ANY choice oracle
     [pick], any stopping point [fuel]. The deterministic selection is an instance (the C02_select theorems). *)
 From Coq Require Import List NArith ZArith Lia Bool.
-From Verif Require Import Base.BStr Txcache.TxTypes Txcache.Selection Txcache.Judge Txcache.Selection_proofs.
+From Verif Require Import Base.BStr Txcache.TxTypes Txcache.Selection Txcache.Judge Txcache.Selection_proofs
+  Txcache.Pool Txcache.Pool_proofs Txcache.Pool_props.
 Import ListNotations.
 Open Scope N_scope.
 
@@ -54,6 +55,16 @@ Theorem C02_select_count : forall sess bs gasRequested maxNum, bunches_ok bs ->
   (length (fst (select sess bs gasRequested maxNum)) <= maxNum)%nat.
 Proof. intros sess bs g m Hok. rewrite select_is_loop. apply env_C02_count. exact Hok. Qed.
 
+(** for every reachable pool the selected transactions are distinct members of the pool *)
+Theorem C02_reachable_members_distinct : forall cfg ops sess gasRequested maxNum, hist_ok ops ->
+  let result := fst (select_txs (run_pool cfg ops) sess gasRequested maxNum) in
+  NoDup (map hash result) /\ forall t, In t result -> In t (pool_txs (run_pool cfg ops)).
+Proof.
+  intros cfg ops sess g m H. cbv zeta. pose proof (run_pool_inv cfg ops H) as HI. unfold select_txs. rewrite select_is_loop. cbn [fst]. split.
+  - apply env_C02_distinct; [apply inv_bunches_ok; exact HI|apply inv_hash_NoDup; exact HI].
+  - apply env_C02_members. apply inv_bunches_ok. exact HI.
+Qed.
+
 (** the executable twins evaluated on the implementation's results are sound *)
 Theorem C02_checker_balance_sound : forall sess result, c02_balanceb sess result = true ->
   forall pre t post, result = pre ++ t :: post ->
@@ -99,6 +110,7 @@ Print Assumptions C02_guard.
 Print Assumptions C02_balance.
 Print Assumptions C02_select_gas.
 Print Assumptions C02_select_count.
+Print Assumptions C02_reachable_members_distinct.
 Print Assumptions C02_checker_balance_sound.
 Print Assumptions C02_checker_gas_sound.
 Print Assumptions C02_committed_meaning.
